@@ -780,7 +780,7 @@ func (u *Unit) atCall(s *State, name string, args []Term, site ssa.Instruction, 
 		return
 	}
 	for _, c := range u.fc.Clauses {
-		if c.Kind != "at-call" {
+		if c.Kind != "at-call" && c.Kind != "assume-at-call" {
 			continue
 		}
 		want := c.Callee
@@ -804,6 +804,20 @@ func (u *Unit) atCall(s *State, name string, args []Term, site ssa.Instruction, 
 		g, err := env.formula(c.Expr)
 		if err != nil {
 			panic(abortUnit{fmt.Sprintf("%s:%d: %v", c.File, c.Line, err)})
+		}
+		if c.Kind == "assume-at-call" {
+			s.assume(g)
+			a := fmt.Sprintf("%s: assumed at the call of %s: %s: %s", u.fnShort(u.fn), shortCallee(name), c.Label, c.Expr)
+			dup := false
+			for _, x := range u.usedAssume {
+				if x == a {
+					dup = true
+				}
+			}
+			if !dup {
+				u.usedAssume = append(u.usedAssume, a)
+			}
+			continue
 		}
 		n := fmt.Sprintf("%s.at.%s#%d", labelWithFn(c.Label, u.fnShort(u.fn)), shortCallee(name), u.ordinal(site))
 		u.oblige(s, n, c.Props, "at-call", g, pos)
